@@ -34,6 +34,8 @@ func pypiContains(constraints []string, version string) (bool, error) {
 // constraintsIncludePrerelease checks if any constraint explicitly includes prerelease versions
 func constraintsIncludePrerelease(constraints []string) bool {
 	for _, constraint := range constraints {
+		// VERS spec: spaces are not significant anywhere in a constraint
+		constraint = strings.Join(strings.Fields(constraint), "")
 		// If constraint contains prerelease markers, then prereleases are explicitly allowed
 		if containsPrereleaseMarkers(constraint) {
 			return true
